@@ -65,7 +65,8 @@ class CleanupTranslator:
                 yield lit
 
     def _compute_local_superseed(self, pred: Predicate, rule: AST) -> set[Mapping]:
-        local_superseed: set[Mapping] = set()
+        # one set of mappings per occurrence of pred in the head, a mapping is only valid if it holds for all of them
+        per_symbol: list[set[Mapping]] = []
         head_symbols: list[AST] = []
         assert rule.ast_type == ASTType.Rule
         head = rule.head
@@ -73,6 +74,7 @@ class CleanupTranslator:
             symbol = head.atom.symbol
             if pred == Predicate(symbol.name, len(symbol.arguments)):
                 head_symbols.append(symbol)
+                per_symbol.append(set())
         elif head.ast_type == ASTType.HeadAggregate:
             for element in head.elements:
                 assert element.condition.ast_type == ASTType.ConditionalLiteral
@@ -83,7 +85,7 @@ class CleanupTranslator:
                     if pred != Predicate(symbol.name, len(symbol.arguments)):
                         continue
                     head_symbols.append(symbol)
-                    local_superseed.update(set(x for x in self._create_mappings(symbol, element.condition.condition)))
+                    per_symbol.append(set(x for x in self._create_mappings(symbol, element.condition.condition)))
         elif head.ast_type in (ASTType.Aggregate, ASTType.Disjunction):
             for element in head.elements:
                 lit = element.literal
@@ -93,12 +95,14 @@ class CleanupTranslator:
                     if pred != Predicate(symbol.name, len(symbol.arguments)):
                         continue
                     head_symbols.append(symbol)
-                    local_superseed.update(set(x for x in self._create_mappings(symbol, element.condition)))
+                    per_symbol.append(set(x for x in self._create_mappings(symbol, element.condition)))
         # add all body elements to all heads according to they variables
         body_literals = list(self._collect_top_level_body_symbols(rule.body))
-        for symbol in head_symbols:
-            local_superseed.update(set(x for x in self._create_mappings(symbol, body_literals)))
-        return local_superseed
+        for symbol, mappings in zip(head_symbols, per_symbol):
+            mappings.update(set(x for x in self._create_mappings(symbol, body_literals)))
+        if not per_symbol:
+            return set()
+        return set.intersection(*per_symbol)
 
     @staticmethod
     def transitive_closure(a: set[Mapping]) -> set[Mapping]:
